@@ -756,8 +756,15 @@ class Daemon(object):
         return an URI for the internal address.
         """
         if not isinstance(objectOrId, str):
-            objectOrId = getattr(objectOrId, "_pyroId", None)
+            obj = objectOrId
+            objectOrId = getattr(obj, "_pyroId", None)
             if objectOrId is None or objectOrId not in self.objectsById:
+                raise errors.DaemonError("object isn't registered in this daemon")
+            registered = self.objectsById[objectOrId]
+            if isinstance(registered, weakref.ref):
+                registered = registered()
+            if registered is not obj and not (inspect.isclass(registered) and isinstance(obj, registered)):
+                # the id the object remembers has been given to something else in the meantime
                 raise errors.DaemonError("object isn't registered in this daemon")
         if nat:
             loc = self.natLocationStr or self.locationStr
